@@ -1,41 +1,164 @@
 """C08 - interpolants reproduce their data (narrow claim: the structural clauses).
 
-Decided: periodic coefficient wrap after every periodic solve (full rows/columns, right basis,
-right counts), the two sweeps of the 2-D solve use the interpolator/spline of their own
-dimension, factorisation and solve routine are selected as a pair and by dtype *equality*,
-the solve receives the factors the factorisation produced, the collocation matrix is built
-from the same basis.  S(x_i) = u_i, polynomial reproduction, conditioning: numerical, declined.
+Decided: the collocation matrix is built from the attributes of the one basis, with the columns
+[span-degree, span] (mod nb when periodic) and accumulation on repeated columns; factorisation and
+solve routine are selected as a pair and by dtype *equality*, by THIS interpolator's dtype; the
+solve receives the factors the factorisation produced; LAPACK band storage; every periodic 1-D
+solve is followed by the coefficient wrap; the 2-D interpolation leaves in EVERY entry of the
+spline's coefficient array the twice-solved coefficient that belongs there, on the four
+combinations of periodic / clamped dimensions (region analysis, below).
+S(x_i) = u_i, polynomial reproduction, conditioning: numerical, declined.
+
+How the 2-D rule works (no execution): the method is specialised to one combination of
+periodicities (C07.Specialiser: branches on `periodic` resolved, private helpers and attribute
+aliases written back).  Every array the method touches is an abstract buffer whose axes are
+labelled with the dimension they run along (x1 / x2) and whose index range along a dimension is
+cut at the symbolic points 0, degree, nbasis, nbasis+degree, ... (ordered by a linear argument over
+degree >= 1, nbasis >= degree).  Each block carries a typestate: stale | data | solved along x1 |
+solved along x2 | solved along both | misplaced.  Slicing, transposition, row/column loops, copies
+and the two kinds of 1-D solve are transfer functions on these typestates.  The obligation is that
+at the end every block of `spl.coeffs` is `solved along both` and in its own place.
 """
 from __future__ import annotations
 
 import ast
 
-from ..core import src, AnalysisError, parent, same_expr, contains, guards_of
+import sympy as sp
+
+from ..core import src
 from .. import units as U
+from .. import agree
+from .C07 import Specialiser, walk_guarded, own_exprs, _int_attr, _polarity
+
+C1 = "SplineInterpolator1D"
+C2 = "SplineInterpolator2D"
 
 
-def one_d(chk):
-    init = chk.func(U.INTERP, "SplineInterpolator1D.__init__")
-    # collocation matrix from the same basis
-    okc = contains(init, "self._imat = self.collocation_matrix(basis.nbasis, basis.knots, basis.degree, basis.greville, "
-                         "basis.periodic, basis.cubic_uniform)")
-    chk.ob("H1-collocation-arguments", init, "collocation_matrix(basis.nbasis, knots, degree, greville, periodic, cubic_uniform)", okc,
-           "number of basis functions, knots, degree, interpolation points, periodicity and family all come from the one basis"
-           if okc else "collocation matrix is no longer built from the attributes of the one basis", file=U.INTERP,
-           func="SplineInterpolator1D.__init__")
-    cm = chk.func(U.INTERP, "SplineInterpolator1D.collocation_matrix")
+def _flat(body):
+    return [st for st, _g in walk_guarded(body)]
+
+
+def _facts1(per):
+    return {"self._basis.periodic": per, "basis.periodic": per, "self._basis._periodic": per}
+
+
+def _same(a, b):
+    return sp.expand(a - b) == 0
+
+
+# ======================================================================================
+# 1-D interpolator
+# ======================================================================================
+ROLE = {"nb": "nbasis", "knots": "knots", "degree": "degree", "xgrid": "greville", "periodic": "periodic",
+        "cubic_uniform_splines": "cubic_uniform"}
+BASIS_ATTRS = {"nbasis", "ncells", "knots", "degree", "greville", "periodic", "cubic_uniform", "breaks", "domain", "integrals"}
+
+
+def collocation(chk, imod):
+    init_q = f"{C1}.__init__"
+    init = chk.func(U.INTERP, init_q)
+    cm = chk.func(U.INTERP, f"{C1}.collocation_matrix")
     formals = [a.arg for a in cm.args.args]
-    okf = formals == ["nb", "knots", "degree", "xgrid", "periodic", "cubic_uniform_splines"]
-    chk.ob("H1-collocation-arguments", cm, "collocation_matrix signature", okf, "positional roles match the call" if okf else
-           f"signature {formals}", file=U.INTERP, func="SplineInterpolator1D.collocation_matrix", nontrivial=False)
-    okj = contains(cm, "def js(span):\n    return [(span - degree + s) % nb for s in range(degree + 1)]") and \
-        contains(cm, "def js(span):\n    return slice(span - degree, span + 1)")
-    chk.ob("H1-collocation-columns", cm, "columns [span-degree, span] (mod nb when periodic)", okj,
-           "row i holds the degree+1 non-vanishing basis values at columns span-degree..span, wrapped modulo the number of basis "
-           "functions on periodic spaces" if okj else "column indexing of the collocation matrix changed", file=U.INTERP,
-           func="SplineInterpolator1D.collocation_matrix")
-    # filling: a periodic function longer than the period occurs twice in one span; the two values add up
-    from ..core import find as _find
+    known_sig = formals == list(ROLE)
+    chk.pat("H1-collocation-arguments", cm, "collocation_matrix signature", known_sig, "positional roles match the call", file=U.INTERP,
+            func=f"{C1}.collocation_matrix", nontrivial=False)
+    body = Specialiser(imod, C1, keep={"collocation_matrix"}).run("__init__")
+    calls = [c for st in _flat(body) for c in own_exprs(st) if isinstance(c, ast.Call) and isinstance(c.func, ast.Attribute)
+             and c.func.attr == "collocation_matrix"]
+    ok, bad = False, None
+    if len(calls) == 1 and known_sig:
+        b = agree.bind_call(calls[0], formals)
+        if b is None:
+            bad = f"`{src(calls[0])[:80]}` does not fit the signature {formals}: the constructor raises"
+        else:
+            wrong, unknown = [], []
+            for f_, attr in ROLE.items():
+                a = b.get(f_)
+                s_ = src(a) if a is not None else None
+                if s_ in (f"basis.{attr}", f"self._basis.{attr}"):
+                    continue
+                if s_ is not None and s_.split(".")[-1] in BASIS_ATTRS and s_.rsplit(".", 1)[0] in ("basis", "self._basis"):
+                    wrong.append(f"parameter `{f_}` receives `{s_}` instead of the basis' `{attr}`")
+                else:
+                    unknown.append(f_)
+            if wrong:
+                bad = "; ".join(wrong) + ": the matrix is not the collocation matrix B_j(x_i) of this basis at its interpolation points"
+            elif not unknown:
+                ok = True
+    chk.pat("H1-collocation-arguments", calls[0] if calls else init, "collocation_matrix(basis.nbasis, knots, degree, greville, periodic, cubic_uniform)",
+            ok, "number of basis functions, knots, degree, interpolation points, periodicity and family all come from the one basis", bad,
+            file=U.INTERP, func=init_q)
+    # ---- columns of row i
+    span, degree, nb, s = sp.symbols("span degree nb s", integer=True)
+    tab = {"span": span, "degree": degree, "nb": nb}
+
+    def js_defs(block):
+        out = []
+        for st in block:
+            if isinstance(st, ast.FunctionDef) and len(st.args.args) == 1:
+                rets = [r.value for r in ast.walk(st) if isinstance(r, ast.Return)]
+                if len(rets) == 1:
+                    out.append((st.name, st.args.args[0].arg, rets[0]))
+            elif isinstance(st, ast.Assign) and isinstance(st.value, ast.Lambda) and len(st.value.args.args) == 1 and isinstance(st.targets[0], ast.Name):
+                out.append((st.targets[0].id, st.value.args.args[0].arg, st.value.body))
+        return out
+
+    def columns(e, par):
+        """(first column, number of columns, wrapped modulo?) of the index expression of one row"""
+        t = dict(tab)
+        t[par] = span
+        if isinstance(e, ast.ListComp) and len(e.generators) == 1 and isinstance(e.generators[0].target, ast.Name) and \
+                isinstance(e.generators[0].iter, ast.Call) and src(e.generators[0].iter.func) == "range" and len(e.generators[0].iter.args) == 1 \
+                and not e.generators[0].ifs:
+            v = e.generators[0].target.id
+            cnt = _int_attr(e.generators[0].iter.args[0], t)
+            elt, mod = e.elt, None
+            if isinstance(elt, ast.BinOp) and isinstance(elt.op, ast.Mod):
+                mod = _int_attr(elt.right, t)
+                elt = elt.left
+            val = _int_attr(elt, {**t, v: s})
+            if cnt is None or val is None or val.coeff(s) != 1:
+                return None
+            return val.subs(s, 0), cnt, mod
+        if isinstance(e, ast.Call) and src(e.func) in ("slice", "range", "np.arange") and len(e.args) == 2:
+            lo, hi = _int_attr(e.args[0], t), _int_attr(e.args[1], t)
+            if lo is None or hi is None:
+                return None
+            return lo, hi - lo, None
+        if isinstance(e, ast.BinOp) and isinstance(e.op, ast.Mod):
+            inner = columns(e.left, par)
+            m = _int_attr(e.right, t)
+            if inner is None or m is None:
+                return None
+            return inner[0], inner[1], m
+        return None
+
+    okj, badj = False, None
+    pifs = [n for n in ast.walk(cm) if isinstance(n, ast.If) and src(_polarity(n.test)[0]) == "periodic" and (js_defs(n.body) or js_defs(n.orelse))]
+    if len(pifs) == 1:
+        t_, sw = _polarity(pifs[0].test)
+        arm_p, arm_c = (pifs[0].body, pifs[0].orelse) if not sw else (pifs[0].orelse, pifs[0].body)
+        dp, dc = js_defs(arm_p), js_defs(arm_c)
+        if len(dp) == 1 and len(dc) == 1 and dp[0][0] == dc[0][0]:
+            cp, cc = columns(dp[0][2], dp[0][1]), columns(dc[0][2], dc[0][1])
+            if cp is not None and cc is not None:
+                probs = []
+                for what, (first, cnt, mod), want_mod in (("periodic", cp, True), ("clamped", cc, False)):
+                    if not _same(first, span - degree) or not _same(cnt, degree + 1):
+                        probs.append(f"on a {what} space row i gets the {cnt} columns from {first}: the non-vanishing basis functions at a "
+                                     "point of span `span` are the degree+1 functions span-degree .. span")
+                    if want_mod and (mod is None or not _same(mod, nb)):
+                        probs.append("on a periodic space the column indices are not taken modulo the number of basis functions: the functions "
+                                     "that wrap around the period fall outside the matrix" if mod is None else
+                                     f"on a periodic space the column indices are taken modulo {mod} instead of nb")
+                if probs:
+                    badj = "; ".join(probs)
+                else:
+                    okj = True
+    chk.pat("H1-collocation-columns", pifs[0] if pifs else cm, "columns [span-degree, span] (mod nb when periodic)", okj,
+            "row i holds the degree+1 non-vanishing basis values at columns span-degree..span, wrapped modulo the number of basis "
+            "functions on periodic spaces", badj, file=U.INTERP, func=f"{C1}.collocation_matrix")
+    # ---- filling: a periodic function longer than the period occurs twice in one span; the two values add up
     fills_add = [c for c in ast.walk(cm) if isinstance(c, ast.Call) and src(c.func) == "np.add.at" and len(c.args) == 3
                  and src(c.args[0]) == "mat" and src(c.args[2]) == "basis" and src(c.args[1]).replace(" ", "") == "(i,js(span))"]
     fills_set = [n for n in ast.walk(cm) if isinstance(n, ast.Assign) and isinstance(n.targets[0], ast.Subscript)
@@ -46,87 +169,1233 @@ def one_d(chk):
                "degree the same column occurs twice in js(span) and the second value overwrites the first instead of adding to it - "
                "the matrix is not the collocation matrix, interpolants do not reproduce their data")
     chk.pat("H1-collocation-accumulate", fills_set[0] if fills_set else cm, "np.add.at(mat, (i, js(span)), basis) on both arms",
-            len(fills_add) == 2 and not fills_set, "values falling on the same (wrapped) column are added", bad, file=U.INTERP,
-            func="SplineInterpolator1D.collocation_matrix")
-    # dtype dispatch: pair (factorisation, solve) selected by equality with complex
-    ifs = [n for n in ast.walk(init) if isinstance(n, ast.If) and "dtype" in src(n.test)]
-    ok = False
-    why = "dtype dispatch not found"
-    if len(ifs) == 1:
-        t = ifs[0].test
-        eq = isinstance(t, ast.Compare) and len(t.ops) == 1 and isinstance(t.ops[0], ast.Eq) and \
-            {src(t.left), src(t.comparators[0])} == {"dtype", "complex"}
-        a, b = ifs[0].body, ifs[0].orelse
-        pair_c = contains(a, "self._bmat, self._ipiv, self._finfo = zgbtrf(bmat, self._l, self._u)") and contains(a, "self._solveFunc = zgbtrs")
-        pair_r = contains(b, "self._bmat, self._ipiv, self._finfo = dgbtrf(bmat, self._l, self._u)") and contains(b, "self._solveFunc = dgbtrs")
-        ok = eq and pair_c and pair_r
-        why = ("complex data selects the complex factorisation together with the complex solve, real data the real pair; the test is an "
-               "equality, so every spelling of the complex dtype (complex, np.dtype(complex)) takes the complex pair") if ok else \
-            (f"the complex pair is selected by `{src(t)}`: " + ("an identity test is False for np.dtype(complex)/array.dtype, which then "
-             "silently takes the real LAPACK pair and drops the imaginary part" if not eq else f"pairs: complex ok={pair_c}, real ok={pair_r}"))
-    chk.ob("H2-factor-solve-pair", ifs[0] if ifs else init, "dtype == complex -> (zgbtrf, zgbtrs) else (dgbtrf, dgbtrs)", ok, why,
-           file=U.INTERP, func="SplineInterpolator1D.__init__")
-    sn = chk.func(U.INTERP, "SplineInterpolator1D._solve_system_nonperiodic")
-    oks = contains(sn, "c[:], self._sinfo = self._solveFunc(self._bmat, self._l, self._u, ug, self._ipiv)")
-    chk.ob("H2-factor-solve-pair", sn, "solve(bmat, l, u, ug, ipiv)", oks, "the solve receives the factors, band widths and pivots the "
-           "factorisation produced, and the data as right-hand side" if oks else "arguments of the banded solve changed", file=U.INTERP,
-           func="SplineInterpolator1D._solve_system_nonperiodic")
-    okb = contains(init, "bmat[self._u + self._l + i - j, j] = cmat[i, j]") and contains(init, "bmat = np.zeros((1 + self._u + 2 * self._l, cmat.shape[1]))") \
-        and contains(init, "self._l = abs(dmat.offsets.min())") and contains(init, "self._u = dmat.offsets.max()")
-    chk.ob("H2-band-storage", init, "LAPACK band storage", okb, "entry (i,j) is stored at row u+l+i-j of a (1+u+2l)-row band array (general "
-           "band storage with room for fill-in)" if okb else "band storage layout changed", file=U.INTERP, func="SplineInterpolator1D.__init__")
-    # periodic solve followed by the wrap
-    sp_ = chk.func(U.INTERP, "SplineInterpolator1D._solve_system_periodic")
-    okp = contains(sp_, "n = self._basis.nbasis\np = self._basis.degree\nc[0:n] = self._splu.solve(ug)\nc[n:n + p] = c[0:p]")
-    chk.ob("H3-periodic-wrap", sp_, "c[0:n] = solve(ug); c[n:n+p] = c[0:p]", okp, "the n periodic coefficients are followed by a copy of "
-           "the first `degree` of them" if okp else "periodic solve is no longer followed by the coefficient wrap", file=U.INTERP,
-           func="SplineInterpolator1D._solve_system_periodic")
-    ci = chk.func(U.INTERP, "SplineInterpolator1D.compute_interpolant")
-    okd = contains(ci, "if self._basis.periodic:\n    self._solve_system_periodic(ug, spl.coeffs)\nelse:\n    self._solve_system_nonperiodic(ug, spl.coeffs)") \
-        and contains(ci, "assert spl.basis is self._basis") and contains(ci, "assert len(ug) == self._basis.nbasis")
-    chk.ob("H3-periodic-wrap", ci, "periodic basis -> periodic solve (with wrap)", okd, "the solve path is selected by the basis' own "
-           "periodicity and the spline must live on the same basis" if okd else "dispatch between periodic and clamped solve changed",
-           file=U.INTERP, func="SplineInterpolator1D.compute_interpolant")
-    okl = contains(init, "if basis.periodic:\n    self._splu = splu(csc_matrix(self._imat))")
-    chk.ob("H3-periodic-wrap", init, "periodic: sparse LU of the collocation matrix", okl, "", file=U.INTERP,
-           func="SplineInterpolator1D.__init__", nontrivial=False)
+            len(fills_add) >= 1 and not fills_set, "values falling on the same (wrapped) column are added", bad, file=U.INTERP,
+            func=f"{C1}.collocation_matrix")
 
 
-def two_d(chk):
-    fn = chk.func(U.INTERP, "SplineInterpolator2D.compute_interpolant")
-    init = chk.func(U.INTERP, "SplineInterpolator2D.__init__")
-    oki = contains(init, "self._spline1 = Spline1D(basis1, dtype)\nself._spline2 = Spline1D(basis2, dtype)\n"
-                         "self._interp1 = SplineInterpolator1D(basis1, dtype)\nself._interp2 = SplineInterpolator1D(basis2, dtype)") and \
-        contains(init, "self._bwork = np.zeros((n2 + p2, n1 + p1))") and contains(init, "n1, n2 = (basis1.ncells, basis2.ncells)") and \
-        contains(init, "p1, p2 = (basis1.degree, basis2.degree)")
-    chk.pat("H4-sweep-roles", init, "1-D tools of dimension k are built on basis k; work array is the transposed coefficient shape", oki,
-            "spline/interpolator k are built on basis k", file=U.INTERP, func="SplineInterpolator2D.__init__")
-    ok1 = contains(fn, "for i1 in range(n1):\n    self._interp2.compute_interpolant(ug[i1, :], self._spline2)\n    w[i1, :] = self._spline2.coeffs")
-    bad1 = None
-    if not ok1:
-        c1 = [c for c in ast.walk(fn) if isinstance(c, ast.Call) and src(c.func) == "self._interp1.compute_interpolant"
-              and c.args and src(c.args[0]).replace(" ", "").startswith("ug[")]
-        if c1:
-            bad1 = f"`{src(c1[0])[:70]}`: the rows of the data (fixed x1, running along x2) are interpolated with the tools of dimension 1"
-    chk.pat("H4-sweep-roles", fn, "first sweep: rows of ug along x2 with interp2/spline2", ok1,
-            "each row (fixed x1) is interpolated along x2 with the tools of dimension 2", bad1, file=U.INTERP,
-            func="SplineInterpolator2D.compute_interpolant")
-    ok2 = contains(fn, "wt[:, :] = w.transpose()") and \
-        contains(fn, "for i2 in range(n2):\n    self._interp1.compute_interpolant(wt[i2, :n1], self._spline1)\n    wt[i2, :] = self._spline1.coeffs")
-    bad2 = None
-    if not ok2:
-        st2 = [n for n in ast.walk(fn) if isinstance(n, ast.Assign) and isinstance(n.targets[0], ast.Subscript)
-               and src(n.targets[0].value) == "wt" and "self._spline1.coeffs" in src(n.value)]
-        if st2 and (src(n_ := st2[0].targets[0].slice).replace(" ", "") != "i2,:" or src(st2[0].value) != "self._spline1.coeffs"):
-            bad2 = (f"`{src(st2[0])}` keeps only part of the coefficient vector of the x1 solve: the entries added by the solve's own periodic "
-                    "wrap are lost (or taken from stale content of the work array)")
-    chk.pat("H4-sweep-roles", fn, "second sweep: rows of the transposed coefficients along x1 with interp1/spline1", ok2,
-            "each x2-coefficient row is interpolated along x1 with the tools of dimension 1, using its first n1 entries as data",
-            bad2, file=U.INTERP, func="SplineInterpolator2D.compute_interpolant")
-    okn = contains(fn, "n1, n2 = (basis1.nbasis, basis2.nbasis)\np1, p2 = (basis1.degree, basis2.degree)") and contains(fn, "assert ug.shape == (n1, n2)")
-    chk.pat("H4-sweep-roles", fn, "n_k = nbasis of basis k, p_k = degree of basis k", okn, "counts of dimension k come from basis k",
-            file=U.INTERP, func="SplineInterpolator2D.compute_interpolant")
-    # intermediate coefficients are kept in storage whose type does not depend on the caller's data
+LAPACK_ROLES = ["ab", "kl", "ku", "b", "ipiv"]
+FACTORS = {"ab": "self._bmat", "kl": "self._l", "ku": "self._u", "ipiv": "self._ipiv"}
+
+
+def banded_solve_roles(call):
+    """-> (wrong, unknown, bound) for a call of the LAPACK banded solve xgbtrs(ab, kl, ku, b, ipiv, ...)"""
+    got = {n_: a for n_, a in zip(LAPACK_ROLES, call.args)}
+    for k in call.keywords:
+        if k.arg in LAPACK_ROLES:
+            got[k.arg] = k.value
+    wrong = [f"`{k}` receives `{src(got[k])}` instead of `{w}`" for k, w in FACTORS.items() if k in got and src(got[k]) != w
+             and src(got[k]) in FACTORS.values()]
+    unknown = [k for k, w in FACTORS.items() if k not in got or (src(got[k]) != w and src(got[k]) not in FACTORS.values())]
+    return wrong, unknown, got
+
+
+def factor_solve_pair(chk, imod):
+    init_q = f"{C1}.__init__"
+    init = chk.func(U.INTERP, init_q)
+    body = Specialiser(imod, C1, facts=_facts1(False), keep={"collocation_matrix"}).run("__init__")
+    sets, facts_ = [], []
+    for st, guards in walk_guarded(body):
+        if isinstance(st, ast.Assign):
+            tg = st.targets[0]
+            names = [src(x) for x in (tg.elts if isinstance(tg, ast.Tuple) else [tg])]
+            if "self._solveFunc" in names:
+                sets.append((st, guards, names))
+            if "self._bmat" in names:
+                facts_.append((st, guards, names))
+    ok, bad, node = False, None, init
+
+    def dtype_guard(guards):
+        g = [(t, pol) for t, pol, _n in guards if "dtype" in {x.id for x in ast.walk(t) if isinstance(x, ast.Name)}]
+        return g[-1] if g else None
+
+    def complex_test(t):
+        """True: equality with complex; False: identity; None: unknown"""
+        if isinstance(t, ast.Compare) and len(t.ops) == 1 and {src(t.left), src(t.comparators[0])} in ({"dtype", "complex"}, {"np.dtype(dtype)", "complex"},
+                                                                                                        {"dtype", "np.complex128"}):
+            if isinstance(t.ops[0], ast.Eq):
+                return True
+            if isinstance(t.ops[0], (ast.Is,)):
+                return False
+        if isinstance(t, ast.Call) and src(t.func) in ("np.issubdtype", "np.iscomplexobj") and t.args and "dtype" in src(t.args[0]):
+            return True
+        return None
+    lap = [s_ for s_ in sets if isinstance(s_[0].value, ast.Call) and src(s_[0].value.func).endswith("get_lapack_funcs")]
+    if lap:
+        c = lap[0][0].value
+        node = lap[0][0]
+        deps = set()
+        for a in list(c.args[1:]) + [k.value for k in c.keywords]:
+            for x in ast.walk(a):
+                if isinstance(x, ast.Name):
+                    deps.add(x.id)
+                    for st2 in _flat(body):
+                        if isinstance(st2, ast.Assign) and isinstance(st2.targets[0], ast.Name) and st2.targets[0].id == x.id:
+                            deps |= {y.id for y in ast.walk(st2.value) if isinstance(y, ast.Name)}
+        if "dtype" not in deps:
+            bad = (f"`{src(c)[:80]}` deduces the LAPACK flavour from its array arguments, none of which has the interpolator's dtype (the band "
+                   "matrix is real): the real pair is selected for dtype=complex and the solve drops the imaginary part of complex data")
+    elif len(sets) == 2 and len(facts_) == 2:
+        info = {}
+        for kind, lst in (("solve", sets), ("factor", facts_)):
+            for st, guards, names in lst:
+                g = dtype_guard(guards)
+                v = st.value
+                rn = src(v.func) if isinstance(v, ast.Call) else src(v)
+                if g is None:
+                    info = None
+                    break
+                info.setdefault((src(g[0]), g[1]), {})[kind] = (rn, st, g[0])
+            if info is None:
+                break
+        if info and len(info) == 2 and all(set(v) == {"solve", "factor"} for v in info.values()):
+            tests = {k[0] for k in info}
+            if len(tests) == 1:
+                t_node = next(iter(info.values()))["solve"][2]
+                node = sets[0][0]
+                ct = complex_test(t_node)
+                arms = {pol: (v["factor"][0], v["solve"][0]) for (t, pol), v in info.items()}
+                want = {True: ("zgbtrf", "zgbtrs"), False: ("dgbtrf", "dgbtrs")}
+                fargs = all([src(a) for a in v["factor"][1].value.args[:3]] in (["bmat", "self._l", "self._u"],) or
+                            (isinstance(v["factor"][1].value, ast.Call) and len(v["factor"][1].value.args) >= 3 and
+                             [src(a) for a in v["factor"][1].value.args[1:3]] == ["self._l", "self._u"]) for v in info.values())
+                if ct is False:
+                    bad = (f"the complex pair is selected by `{src(t_node)}`: an identity test is False for np.dtype(complex)/array.dtype, which then "
+                           "silently takes the real LAPACK pair and drops the imaginary part")
+                elif arms != want and set(arms.values()) <= {(a, b) for a in ("zgbtrf", "dgbtrf") for b in ("zgbtrs", "dgbtrs")} and ct:
+                    bad = (f"on `{src(t_node)}` the constructor takes {arms[True]}, otherwise {arms[False]}: factorisation and solve are not the "
+                           "(z, z) / (d, d) pairs of one precision, so complex factors are solved by the real routine or the reverse")
+                elif ct and arms == want and fargs:
+                    ok = True
+    elif not sets:
+        # no assignment at all on the clamped path
+        if not any("_solveFunc" in src(st) for st in _flat(body)):
+            bad = None
+    chk.pat("H2-factor-solve-pair", node, "dtype == complex -> (zgbtrf, zgbtrs) else (dgbtrf, dgbtrs)", ok,
+            "complex data selects the complex factorisation together with the complex solve, real data the real pair; the test is an "
+            "equality, so every spelling of the complex dtype (complex, np.dtype(complex)) takes the complex pair", bad,
+            file=U.INTERP, func=init_q)
+    # ---- factors shared between interpolators through a table must be keyed by everything they depend on
+    params = [a.arg for a in init.args.args if a.arg != "self"]
+    mod_names = {t.id for st in imod.tree.body if isinstance(st, ast.Assign) for t in st.targets if isinstance(t, ast.Name)}
+    cls_names = {t.id for st in imod.cls(C1).body if isinstance(st, ast.Assign) for t in st.targets if isinstance(t, ast.Name)}
+    shared, node2 = [], init
+    raw = Specialiser(imod, C1, keep=set(imod.methods(C1)) - {"__init__"}).run("__init__")
+    for st in _flat(raw):
+        if isinstance(st, ast.Assign) and isinstance(st.targets[0], ast.Subscript):
+            tab = st.targets[0].value
+            root = tab
+            while isinstance(root, ast.Attribute):
+                root = root.value
+            is_shared = (isinstance(tab, ast.Name) and tab.id in mod_names) or \
+                (isinstance(tab, ast.Attribute) and isinstance(root, ast.Name) and root.id in (C1, "cls", "type(self)") and tab.attr in cls_names) or \
+                (isinstance(tab, ast.Attribute) and src(tab.value) in ("self.__class__", "type(self)"))
+            if not is_shared:
+                continue
+            key_deps = {x.id for x in ast.walk(st.targets[0].slice) if isinstance(x, ast.Name)} & set(params)
+            val_deps = {x.id for x in ast.walk(st.value) if isinstance(x, ast.Name)} & set(params)
+            used = any(isinstance(x, ast.Subscript) and isinstance(x.ctx, ast.Load) and src(x.value) == src(tab) for s2 in _flat(raw) for x in ast.walk(s2))
+            if used and val_deps - key_deps:
+                shared.append((st, src(tab), sorted(val_deps - key_deps), sorted(key_deps)))
+    if shared:
+        st, tab, missing, keyd = shared[0]
+        node2 = st
+    chk.ob("H2-factor-solve-pair", node2, "factors and solve routine are this interpolator's own (not shared under an incomplete key)", not shared,
+           "nothing the constructor stores is taken from a table shared between interpolators" if not shared else
+           f"`{src(shared[0][0])[:80]}`: the table `{shared[0][1]}` is shared by all interpolators and keyed by {shared[0][3]} only, but the stored "
+           f"value also depends on {shared[0][2]}: an interpolator built later with the same {'/'.join(shared[0][3])} and another "
+           f"{'/'.join(shared[0][2])} receives the first one's factors and solve routine (e.g. the real LAPACK solve for complex data, which "
+           "drops the imaginary part)", file=U.INTERP, func=init_q)
+    # ---- band storage
+    band_storage(chk, imod, body, init, init_q)
+    # ---- periodic: sparse LU of the collocation matrix
+    pbody = Specialiser(imod, C1, facts=_facts1(True), keep={"collocation_matrix"}).run("__init__")
+    lus = [st for st in _flat(pbody) if isinstance(st, ast.Assign) and src(st.targets[0]) == "self._splu" and isinstance(st.value, ast.Call)]
+    okl = bool(lus) and src(lus[0].value.func) in ("splu", "scipy.sparse.linalg.splu", "factorized") and "self._imat" in src(lus[0].value)
+    chk.pat("H3-periodic-wrap", lus[0] if lus else init, "periodic: sparse LU of the collocation matrix", okl, "", file=U.INTERP,
+            func=init_q, nontrivial=False)
+
+
+def band_storage(chk, imod, body, init, init_q):
+    """LAPACK general band storage: ab[kl + ku + i - j, j] = A[i, j], 2 kl + ku + 1 rows"""
+    l, u, i, j = sp.symbols("l u i j", integer=True)
+    tab = {"self._l": l, "self._u": u}
+    flat = _flat(body)
+    # names of the row / column indices of the non-zero entries
+    idx, why = None, None
+    for st in flat:
+        if isinstance(st, ast.For) and isinstance(st.target, ast.Tuple) and len(st.target.elts) == 2 and "nonzero" in src(st.iter) and \
+                all(isinstance(x, ast.Name) for x in st.target.elts):
+            idx = (st.target.elts[0].id, st.target.elts[1].id, st.body)
+        if isinstance(st, ast.Assign) and isinstance(st.targets[0], ast.Tuple) and len(st.targets[0].elts) == 2 and "nonzero" in src(st.value) and \
+                all(isinstance(x, ast.Name) for x in st.targets[0].elts):
+            idx = (st.targets[0].elts[0].id, st.targets[0].elts[1].id, flat)
+    ok, bad, node = False, None, init
+    # bandwidths
+    defs = {}
+    for st in flat:
+        if isinstance(st, ast.Assign) and src(st.targets[0]) in ("self._l", "self._u"):
+            defs[src(st.targets[0])] = st
+    diag_names = {}      # local -> +1 (j - i) / -1 (i - j)
+    for st in flat:
+        if isinstance(st, ast.Assign) and isinstance(st.targets[0], ast.Name):
+            if isinstance(st.value, ast.Call) and src(st.value.func) == "dia_matrix":
+                diag_names[st.targets[0].id + ".offsets"] = 1
+            if idx and isinstance(st.value, ast.BinOp) and isinstance(st.value.op, ast.Sub):
+                a, b = src(st.value.left), src(st.value.right)
+                if (a, b) == (idx[1], idx[0]):
+                    diag_names[st.targets[0].id] = 1
+                elif (a, b) == (idx[0], idx[1]):
+                    diag_names[st.targets[0].id] = -1
+
+    def bandwidth(e):
+        """'lower' / 'upper' / None for an expression over the diagonal offsets j - i"""
+        inner, absd = e, False
+        if isinstance(e, ast.Call) and src(e.func) in ("abs", "np.abs") and len(e.args) == 1:
+            inner, absd = e.args[0], True
+        neg = False
+        if isinstance(inner, ast.UnaryOp) and isinstance(inner.op, ast.USub):
+            inner, neg = inner.operand, True
+        if isinstance(inner, ast.Call) and isinstance(inner.func, ast.Attribute) and inner.func.attr in ("min", "max") and not inner.args:
+            s_ = src(inner.func.value)
+            if s_ in diag_names:
+                sign = diag_names[s_]
+                ext = inner.func.attr
+                # offsets j - i: max = upper bandwidth, -min = lower bandwidth
+                if sign == 1:
+                    if ext == "max" and not neg:
+                        return "upper"
+                    if ext == "min" and (neg or absd):
+                        return "lower"
+                else:
+                    if ext == "max" and not neg:
+                        return "lower"
+                    if ext == "min" and (neg or absd):
+                        return "upper"
+        return None
+    bw = {k: bandwidth(st.value) for k, st in defs.items()}
+    allocs = [st for st in flat if isinstance(st, ast.Assign) and isinstance(st.targets[0], ast.Name) and isinstance(st.value, ast.Call)
+              and src(st.value.func) in ("np.zeros", "np.empty") and st.value.args and isinstance(st.value.args[0], ast.Tuple)
+              and len(st.value.args[0].elts) == 2 and any(src(st.targets[0]) == src(a) for f in flat if isinstance(f, ast.Assign)
+                                                          and isinstance(f.value, ast.Call) and src(f.value.func)[1:] == "gbtrf" for a in f.value.args[:1])]
+    fills = []
+    if idx:
+        for st in (idx[2] if idx[2] is not flat else flat):
+            for x in ([st] if idx[2] is flat else ast.walk(st)):
+                if isinstance(x, ast.Assign) and isinstance(x.targets[0], ast.Subscript) and isinstance(x.targets[0].slice, ast.Tuple) and \
+                        len(x.targets[0].slice.elts) == 2 and allocs and src(x.targets[0].value) == src(allocs[0].targets[0]):
+                    fills.append(x)
+    if len(defs) == 2 and allocs and len(fills) == 1 and idx:
+        node = fills[0]
+        rows = _int_attr(allocs[0].value.args[0].elts[0], tab)
+        r = _int_attr(fills[0].targets[0].slice.elts[0], {**tab, idx[0]: i, idx[1]: j})
+        c = src(fills[0].targets[0].slice.elts[1])
+        v = fills[0].value
+        v_ok = isinstance(v, ast.Subscript) and isinstance(v.slice, ast.Tuple) and [src(x) for x in v.slice.elts] == [idx[0], idx[1]]
+        if bw.get("self._l") == "upper" and bw.get("self._u") == "lower":
+            bad = ("the lower bandwidth is taken from the super-diagonals and the upper one from the sub-diagonals: the band array and the "
+                   "LAPACK calls describe the transposed pattern")
+        elif rows is not None and r is not None and bw.get("self._l") == "lower" and bw.get("self._u") == "upper" and v_ok:
+            if not _same(rows, 2 * l + u + 1):
+                bad = f"the band array has {rows} rows: xgbtrf needs 2 kl + ku + 1 (kl extra rows for the fill-in of the pivoting)"
+            elif not _same(r, u + l + i - j) or c != idx[1]:
+                bad = (f"entry (i, j) is stored at row {r}, column `{c}`: LAPACK band storage holds it at row kl + ku + i - j of column j, so the "
+                       "factorised matrix is not the collocation matrix")
+            else:
+                ok = True
+    chk.pat("H2-band-storage", node, "LAPACK band storage", ok, "entry (i,j) is stored at row u+l+i-j of a (1+u+2l)-row band array (general "
+            "band storage with room for fill-in), l / u = number of sub- / super-diagonals", bad, file=U.INTERP, func=init_q)
+
+
+def solves_1d(chk, imod):
+    ci_q = f"{C1}.compute_interpolant"
+    ci = chk.func(U.INTERP, ci_q)
+    for q in ("_solve_system_nonperiodic", "_solve_system_periodic"):
+        if imod.has(f"{C1}.{q}"):
+            chk.functions.add(f"{U.INTERP}:{C1}.{q}")
+    n, p = sp.Symbol("n", integer=True, positive=True), sp.Symbol("p", integer=True, positive=True)
+    table = {"self._basis.nbasis": n, "self._basis.degree": p, "self._basis.ncells": n, "self._basis._nbasis": n, "self._basis._degree": p}
+    # ---- clamped
+    body = Specialiser(imod, C1, facts=_facts1(False)).run("compute_interpolant")
+    calls = [(st, c) for st in _flat(body) for c in own_exprs(st) if isinstance(c, ast.Call) and src(c.func) == "self._solveFunc"]
+    other = [c for st in _flat(body) for c in own_exprs(st) if isinstance(c, ast.Call) and src(c.func) == "self._splu.solve"]
+    ok, bad, node = False, None, ci
+    if other and not calls:
+        bad = ("on a clamped basis the interpolation calls the sparse LU, which the constructor builds for periodic bases only: the call fails "
+               "(the dispatch between the periodic and the clamped solve is inverted)")
+    elif len(calls) == 1:
+        st, c = calls[0]
+        node = st
+        wrong, unknown, got = banded_solve_roles(c)
+        tr = [k.value for k in c.keywords if k.arg == "trans"] or list(c.args[5:6])
+        ow = [k for k in c.keywords if k.arg and k.arg.startswith("overwrite") and isinstance(k.value, ast.Constant) and k.value.value]
+        rhs = got.get("b")
+        tgt = None
+        if isinstance(st, ast.Assign):
+            t0 = st.targets[0]
+            tgt = t0.elts[0] if isinstance(t0, ast.Tuple) and t0.elts else t0
+        full_store = isinstance(tgt, ast.Subscript) and src(tgt.value) in ("spl.coeffs", "spl._coeffs") and (
+            (isinstance(tgt.slice, ast.Slice) and tgt.slice.lower is None and tgt.slice.upper is None) or isinstance(tgt.slice, ast.Constant) and tgt.slice.value is Ellipsis)
+        if wrong:
+            bad = "; ".join(wrong) + ": the banded solve is given the factors in the wrong places"
+        elif tr and not (isinstance(tr[0], ast.Constant) and tr[0].value in (0, False, "N")):
+            bad = f"`{src(c)[:80]}` solves the transposed system: the coefficients do not interpolate the data"
+        elif ow and rhs is not None and isinstance(rhs, ast.Name) and rhs.id == "ug":
+            bad = (f"`{ow[0].arg}=True` lets LAPACK solve in place: the caller's data array `ug` (or the row of the caller's 2-D field) is "
+                   "replaced by spline coefficients")
+        elif isinstance(tgt, ast.Name):
+            later = [x for x in _flat(body) if isinstance(x, (ast.Assign, ast.AugAssign)) and "spl" in src(x.targets[0] if isinstance(x, ast.Assign) else x.target)
+                     or (isinstance(x, ast.Expr) and "spl" in src(x) and x is not st)]
+            if not later:
+                bad = (f"`{src(st)[:70]}` binds the solution to the local name `{tgt.id}` and nothing is stored into the spline: its "
+                       "coefficient array is not changed")
+            elif not unknown and isinstance(rhs, ast.Name) and rhs.id == "ug" and not ow and len(later) == 1 and isinstance(later[0], ast.Assign) and \
+                    isinstance(later[0].value, ast.Name) and later[0].value.id == tgt.id and isinstance(later[0].targets[0], ast.Subscript) and \
+                    src(later[0].targets[0].value) in ("spl.coeffs", "spl._coeffs") and isinstance(later[0].targets[0].slice, ast.Slice) and \
+                    later[0].targets[0].slice.lower is None and later[0].targets[0].slice.upper is None:
+                ok = True
+        elif not unknown and isinstance(rhs, ast.Name) and rhs.id == "ug" and full_store and not ow:
+            ok = True
+    chk.pat("H2-factor-solve-pair", node, "solve(bmat, l, u, ug, ipiv)", ok, "the solve receives the factors, band widths and pivots the "
+            "factorisation produced and the data as right-hand side; the solution fills the spline's coefficients", bad, file=U.INTERP, func=ci_q)
+    # ---- periodic: c[0:n] = splu.solve(ug); c[n:n+p] = c[0:p]
+    body = Specialiser(imod, C1, facts=_facts1(True)).run("compute_interpolant")
+    flat = _flat(body)
+    ints = {}
+    for st in flat:
+        if isinstance(st, ast.Assign) and len(st.targets) == 1 and isinstance(st.targets[0], ast.Name):
+            v = _int_attr(st.value, {**table, **ints})
+            if v is not None:
+                ints[st.targets[0].id] = v
+    table = {**table, **ints}
+    COEF = ("spl.coeffs", "spl._coeffs")
+
+    def bounds(sub, length):
+        if not isinstance(sub, ast.Subscript) or not isinstance(sub.slice, ast.Slice) or sub.slice.step is not None:
+            return None
+        lo = sp.Integer(0) if sub.slice.lower is None else _int_attr(sub.slice.lower, table)
+        hi = length if sub.slice.upper is None else _int_attr(sub.slice.upper, table)
+        if lo is None or hi is None:
+            return None
+        return (lo + length if lo.is_negative else lo), (hi + length if hi.is_negative else hi)
+    solve = [(k, st) for k, st in enumerate(flat) if isinstance(st, ast.Assign) and isinstance(st.value, ast.Call) and src(st.value.func) == "self._splu.solve"]
+    banded = [st for st in flat for c in own_exprs(st) if isinstance(c, ast.Call) and src(c.func) == "self._solveFunc"]
+    wraps = [(k, st) for k, st in enumerate(flat) if isinstance(st, ast.Assign) and isinstance(st.targets[0], ast.Subscript) and
+             src(st.targets[0].value) in COEF and isinstance(st.value, ast.Subscript) and src(st.value.value) in COEF]
+    ok, bad, node = False, None, ci
+    if banded and not solve:
+        bad = ("on a periodic basis the interpolation calls the banded solve, whose factors the constructor builds for clamped bases only: the "
+               "call fails (the dispatch between the periodic and the clamped solve is inverted)")
+    elif len(solve) == 1:
+        ks, st = solve[0]
+        node = st
+        tb = bounds(st.targets[0], n + p) if src(getattr(st.targets[0], "value", None)) in COEF else None
+        rhs = st.value.args[0] if st.value.args else None
+        tr = [k_.value for k_ in st.value.keywords if k_.arg == "trans"] or list(st.value.args[1:2])
+        if tr and not (isinstance(tr[0], ast.Constant) and tr[0].value == "N"):
+            bad = f"`{src(st.value)[:60]}` solves the transposed system: the coefficients do not interpolate the data"
+        elif isinstance(st.targets[0], ast.Name):
+            if not [x for x in flat if isinstance(x, (ast.Assign, ast.AugAssign)) and any(c_ in src(x.targets[0] if isinstance(x, ast.Assign) else x.target)
+                                                                                          for c_ in COEF)]:
+                bad = f"`{src(st)[:70]}` binds the solution to a local name and nothing is stored into the spline: its coefficients are not changed"
+        elif tb is not None and isinstance(rhs, ast.Name) and rhs.id == "ug":
+            if not (_same(tb[0], 0) and _same(tb[1], n)):
+                bad = f"the n periodic coefficients are stored at [{tb[0]}, {tb[1]}) instead of [0, n)"
+            elif not wraps:
+                others = [x for x in flat if x is not st and isinstance(x, (ast.Assign, ast.AugAssign, ast.Expr)) and any(c_ in src(x) for c_ in COEF)
+                          and not isinstance(x, ast.Expr) or (isinstance(x, ast.Expr) and isinstance(x.value, ast.Call) and any(c_ in src(x) for c_ in COEF))]
+                if not others:
+                    bad = ("the periodic solve is not followed by the coefficient wrap (nothing else touches the coefficients): entries n..n+p-1 "
+                           "of the spline's coefficients keep their old content, and the spline is wrong in the last cells of the period")
+            else:
+                kw, w = wraps[0]
+                node = w
+                a, b = bounds(w.targets[0], n + p), bounds(w.value, n + p)
+                if a is None or b is None:
+                    bad = None
+                elif kw < ks:
+                    bad = f"`{src(w)}` is executed before the solve: the wrapped copy is taken from the previous content"
+                elif not (_same(a[0], n) and _same(a[1], n + p) and _same(b[0], 0) and _same(b[1], p)):
+                    bad = (f"`{src(w)}` copies the entries [{b[0]}, {b[1]}) onto [{a[0]}, {a[1]}): the wrapped coefficients are the first p "
+                           "ones repeated after the n-th (c[n+i] = c[i])")
+                else:
+                    ok = True
+    chk.pat("H3-periodic-wrap", node, "c[0:n] = solve(ug); c[n:n+p] = c[0:p]", ok, "the n periodic coefficients are followed by a copy of "
+            "the first `degree` of them", bad, file=U.INTERP, func=ci_q)
+
+
+# ======================================================================================
+# 2-D interpolator: typestates of index regions
+# ======================================================================================
+class Undec(Exception):
+    def __init__(self, why, node=None):
+        super().__init__(why)
+        self.why, self.node = why, node
+
+
+class Broken(Exception):
+    def __init__(self, why, node=None, rule="H3-periodic-wrap"):
+        super().__init__(why)
+        self.why, self.node, self.rule = why, node, rule
+
+
+NS = {d: sp.Symbol(f"n{d}", integer=True) for d in (1, 2)}       # nbasis of dimension d
+PS = {d: sp.Symbol(f"p{d}", integer=True) for d in (1, 2)}       # degree of dimension d
+_Q = {d: sp.Symbol(f"q{d}", integer=True) for d in (1, 2)}       # degree - 1 >= 0
+_M = {d: sp.Symbol(f"m{d}", integer=True) for d in (1, 2)}       # nbasis - degree >= 0
+
+KIND_TEXT = {"stale": "content left from before the call (never written)", "data": "raw data", "c1": "coefficients of the x1 solve only",
+             "c2": "coefficients of the x2 solve only", "c12": "final coefficients", "zero": "a constant fill"}
+
+
+def nonneg(e):
+    """is the integer expression >= 0 for every degree >= 1 and nbasis >= degree?  True / False (provably negative somewhere is not
+    needed: only True is used) / None"""
+    e = sp.expand(sp.sympify(e).subs({NS[1]: 1 + _Q[1] + _M[1], NS[2]: 1 + _Q[2] + _M[2], PS[1]: 1 + _Q[1], PS[2]: 1 + _Q[2]}))
+    syms = [_Q[1], _Q[2], _M[1], _M[2]]
+    try:
+        poly = sp.Poly(e, *syms)
+    except sp.PolynomialError:
+        return None
+    if poly.total_degree() > 1:
+        return None
+    cs = [poly.coeff_monomial(s_) for s_ in syms] + [poly.coeff_monomial(1)]
+    if all(c >= 0 for c in cs):
+        return True
+    if all(c <= 0 for c in cs) and any(c < 0 for c in cs):
+        return False
+    return None
+
+
+def le(a, b):
+    r = nonneg(b - a)
+    if r is True:
+        return True
+    r2 = nonneg(a - b)
+    if r2 is True and not _same(a, b):
+        return False
+    return None
+
+
+class Buf:
+    """abstract array: axes labelled with dimensions, block typestates"""
+
+    def __init__(self, name, dims, extents, kind, from_data=False):
+        self.name, self.dims, self.extents, self.from_data = name, tuple(dims), tuple(extents), from_data
+        self.cells = {tuple(sp.Integer(0) for _ in dims): kind}
+
+    def __repr__(self):
+        return f"<{self.name} {self.dims} {self.extents}>"
+
+
+class Idx:
+    """the index of a row/column loop: ranges over [lo, hi)"""
+
+    def __init__(self, name, lo, hi, node):
+        self.name, self.lo, self.hi, self.node = name, lo, hi, node
+
+
+class View:
+    """rectangular part of a buffer; sel[k] (one per buffer axis) is ('iv', lo, hi) or ('ix', Idx, offset); order = buffer axes shown"""
+
+    def __init__(self, buf, sel, order):
+        self.buf, self.sel, self.order = buf, list(sel), tuple(order)
+
+    @property
+    def ndim(self):
+        return len(self.order)
+
+
+class Scratch:
+    """coefficient vector of a 1-D work spline after a solve"""
+
+    def __init__(self, dim, extent):
+        self.dim, self.extent = dim, extent
+        self.idx = None            # loop index of the row it was solved for
+        self.other_sel = None      # ('ix', Idx, off) or ('iv', lo, hi) position along the other dimension
+        self.kinds = None          # list of (lo, hi, kind) along the OTHER dimension (per row segment)
+        self.valid = False
+
+
+class Regions:
+    def __init__(self, chk, imod, smod, per, body, init_body):
+        self.chk, self.imod, self.smod, self.per = chk, imod, smod, per
+        self.body, self.init_body = body, init_body
+        self.E = {d: NS[d] + PS[d] if per[d] else NS[d] for d in (1, 2)}
+        self.cuts = {d: [sp.Integer(0), self.E[d]] for d in (1, 2)}
+        self.bufs = {}
+        self.names = {}            # local name -> View
+        self.ints = {}
+        self.scratch = {}
+        self.solves = []           # (node, K, ok-text)
+        self.dtype_bad = []
+        self.loop = None
+        self.loop_acc = None
+        self.table = {}
+        for d in (1, 2):
+            for recv in (f"self._basis{d}", f"basis{d}", f"spl.basis[{d - 1}]", f"spl._basis{d}"):
+                self.table[f"{recv}.nbasis"] = NS[d]
+                self.table[f"{recv}.degree"] = PS[d]
+                self.table[f"{recv}.ncells"] = NS[d] if per[d] else NS[d] - PS[d]
+
+    # ---- integer expressions
+    def ival(self, e, node=None):
+        tab = {**self.table, **self.ints}
+        v = _int_attr(e, tab)
+        if v is not None:
+            return v
+        if isinstance(e, ast.Call) and src(e.func) == "len" and len(e.args) == 1:
+            vw = self.view(e.args[0], quiet=True)
+            if vw is not None and vw.ndim >= 1:
+                s_ = vw.sel[vw.order[0]]
+                return s_[2] - s_[1]
+        if isinstance(e, ast.Subscript) and isinstance(e.value, ast.Attribute) and e.value.attr == "shape" and isinstance(e.slice, ast.Constant):
+            vw = self.view(e.value.value, quiet=True)
+            if vw is not None and isinstance(e.slice.value, int) and 0 <= e.slice.value < vw.ndim:
+                s_ = vw.sel[vw.order[e.slice.value]]
+                return s_[2] - s_[1]
+        if isinstance(e, ast.BinOp) and isinstance(e.op, (ast.Add, ast.Sub, ast.Mult)):
+            a, b = self.ival(e.left, node), self.ival(e.right, node)
+            return a + b if isinstance(e.op, ast.Add) else a - b if isinstance(e.op, ast.Sub) else a * b
+        raise Undec(f"integer expression `{src(e)[:50]}` is not a combination of nbasis / degree / ncells of the two bases", node or e)
+
+    # ---- cuts
+    def add_cut(self, d, c):
+        cs = self.cuts[d]
+        c = sp.expand(c)
+        for x in cs:
+            if _same(x, c):
+                return
+        pos = None
+        for k, x in enumerate(cs):
+            r = le(c, x)
+            if r is None:
+                raise Undec(f"cannot order the index positions {c} and {x} along x{d}")
+            if r:
+                pos = k
+                break
+        if pos is None:
+            cs.append(c)       # beyond the largest extent: kept for comparisons only
+            return
+        if pos == 0:
+            raise Undec(f"negative index position {c} along x{d}")
+        below = cs[pos - 1]
+        cs.insert(pos, c)
+        for b in self.bufs.values():
+            self.split(b, d, below, c)
+
+    def split(self, b, d, below, c):
+        for ax, dd in enumerate(b.dims):
+            if dd != d or le(b.extents[ax], c) is not False and not (le(c, b.extents[ax]) and not _same(c, b.extents[ax])):
+                continue
+            for key in list(b.cells):
+                if _same(key[ax], below):
+                    nk = list(key)
+                    nk[ax] = c
+                    b.cells[tuple(nk)] = b.cells[key]
+
+    @staticmethod
+    def cell_get(b, key):
+        for key2, val in b.cells.items():
+            if all(_same(x, y) for x, y in zip(key2, key)):
+                return val
+        return "stale"
+
+    @staticmethod
+    def cell_set(b, key, val):
+        for key2 in b.cells:
+            if all(_same(x, y) for x, y in zip(key2, key)):
+                b.cells[key2] = val
+                return
+        b.cells[tuple(sp.expand(x) for x in key)] = val
+
+    def segs(self, d, lo, hi):
+        """atomic segments [a, b) of dimension d inside [lo, hi)"""
+        self.add_cut(d, lo)
+        self.add_cut(d, hi)
+        cs = self.cuts[d]
+        out = []
+        for a, b in zip(cs, cs[1:]):
+            if le(lo, a) and le(b, hi):
+                out.append((a, b))
+        return out
+
+    # ---- buffers
+    def new_buf(self, name, dims, extents, kind, from_data=False):
+        b = Buf(name, dims, extents, kind, from_data)
+        # existing cuts apply to the new buffer
+        for ax, d in enumerate(dims):
+            cs = self.cuts[d]
+            for below, c in zip(cs, cs[1:]):
+                if le(c, extents[ax]) and not _same(c, extents[ax]):
+                    for key in list(b.cells):
+                        if _same(key[ax], below):
+                            nk = list(key)
+                            nk[ax] = c
+                            b.cells[tuple(nk)] = b.cells[key]
+        self.bufs[name] = b
+        for ax, d in enumerate(dims):
+            self.add_cut(d, extents[ax])
+        return b
+
+    def dims_of_shape(self, exts, node):
+        dims = []
+        for e in exts:
+            ds = [d for d in (1, 2) if e.has(NS[d]) or e.has(PS[d])]
+            if len(ds) != 1:
+                raise Undec(f"extent {e} of an array does not belong to one dimension", node)
+            dims.append(ds[0])
+        return dims
+
+    def shape_expr(self, e, node):
+        if isinstance(e, ast.Tuple):
+            return [self.ival(x, node) for x in e.elts]
+        if isinstance(e, ast.Attribute) and e.attr == "shape":
+            vw = self.view(e.value)
+            return [vw.sel[a][2] - vw.sel[a][1] for a in vw.order]
+        return [self.ival(e, node)]
+
+    def buffer_named(self, s_, node):
+        if s_ in self.bufs:
+            return self.bufs[s_]
+        if s_ == "ug":
+            return self.new_buf("ug", (1, 2), (NS[1], NS[2]), "data")
+        if s_ in ("spl.coeffs", "spl._coeffs"):
+            # shape given by Spline2D.__init__
+            init = self.smod.func("Spline2D.__init__")
+            shp = None
+            ints = {}
+            for st in init.body:
+                if isinstance(st, ast.Assign) and isinstance(st.targets[0], ast.Name) and isinstance(st.value, ast.Tuple):
+                    try:
+                        ints[st.targets[0].id] = [self.ival(x, st) for x in st.value.elts]
+                    except Undec:
+                        pass
+                if isinstance(st, ast.Assign) and src(st.targets[0]) == "self._coeffs" and isinstance(st.value, ast.Call) and st.value.args:
+                    a = st.value.args[0]
+                    shp = ints.get(a.id) if isinstance(a, ast.Name) else (self.shape_expr(a, st) if isinstance(a, ast.Tuple) else None)
+            if shp is None or len(shp) != 2:
+                raise Undec("shape of Spline2D.coeffs not recognised in Spline2D.__init__", node)
+            dims = self.dims_of_shape(shp, node)
+            if dims != [1, 2] or not _same(shp[0], self.E[1]) or not _same(shp[1], self.E[2]):
+                raise Undec(f"Spline2D.coeffs has shape {shp}, expected (ncells1 + degree1, ncells2 + degree2)", node)
+            return self.new_buf("spl.coeffs", (1, 2), shp, "stale")
+        if s_.startswith("self._") and not s_.startswith("self._spline") and not s_.startswith("self._interp") and not s_.startswith("self._basis"):
+            # an array allocated by the constructor
+            for st in _flat(self.init_body):
+                if isinstance(st, ast.Assign) and src(st.targets[0]) == s_ and isinstance(st.value, ast.Call) and \
+                        src(st.value.func) in ("np.zeros", "np.empty", "np.ones") and st.value.args:
+                    ints_saved = self.ints
+                    self.ints = dict(self.init_ints)
+                    try:
+                        shp = self.shape_expr(st.value.args[0], st)
+                    finally:
+                        self.ints = ints_saved
+                    if len(shp) != 2:
+                        raise Undec(f"`{s_}` is not a 2-D array", node)
+                    dims = self.dims_of_shape(shp, st)
+                    # (a shape that does not fit shows up as a shape error of the copies)
+                    return self.new_buf(s_, dims, shp, "stale")
+            raise Undec(f"allocation of `{s_}` not found in the constructor", node)
+        return None
+
+    def scratch_of(self, e, node):
+        """(K, lo, hi) if e denotes (a slice of) the coefficients of work spline K"""
+        sl = None
+        if isinstance(e, ast.Subscript) and isinstance(e.slice, ast.Slice) and src(e.value).startswith("self._spline"):
+            sl, e = e.slice, e.value
+        s_ = src(e)
+        for K in (1, 2):
+            if s_ in (f"self._spline{K}.coeffs", f"self._spline{K}._coeffs"):
+                lo, hi = sp.Integer(0), self.E[K]
+                if sl is not None:
+                    if sl.step is not None:
+                        raise Undec(f"strided slice `{src(sl)}`", node)
+                    if sl.lower is not None:
+                        lo = self.ival(sl.lower, node)
+                    if sl.upper is not None:
+                        hi = self.ival(sl.upper, node)
+                return K, lo, hi
+        return None
+
+    # ---- views
+    def view(self, e, quiet=False):
+        try:
+            return self._view(e)
+        except Undec:
+            if quiet:
+                return None
+            raise
+
+    def _view(self, e):
+        if isinstance(e, ast.Name) and e.id in self.names:
+            v = self.names[e.id]
+            return View(v.buf, v.sel, v.order)
+        s_ = src(e)
+        if isinstance(e, ast.Attribute) and e.attr == "T":
+            v = self._view(e.value)
+            return View(v.buf, v.sel, tuple(reversed(v.order)))
+        b = self.buffer_named(s_, e) if isinstance(e, (ast.Name, ast.Attribute)) else None
+        if b is not None:
+            return View(b, [("iv", sp.Integer(0), x) for x in b.extents], range(len(b.dims)))
+        if isinstance(e, ast.Call) and isinstance(e.func, ast.Attribute) and e.func.attr == "copy" and not e.args and not e.keywords:
+            return self._view(e.func.value)       # the content at this moment (a name bound to it is handled by `bind`)
+        if isinstance(e, ast.Call) and isinstance(e.func, ast.Attribute) and e.func.attr == "transpose" and not e.args and not e.keywords:
+            v = self._view(e.func.value)
+            return View(v.buf, v.sel, tuple(reversed(v.order)))
+        if isinstance(e, ast.Call) and src(e.func) in ("np.transpose",) and len(e.args) == 1:
+            v = self._view(e.args[0])
+            return View(v.buf, v.sel, tuple(reversed(v.order)))
+        if isinstance(e, ast.Call) and src(e.func) in ("np.asarray", "np.ascontiguousarray") and len(e.args) == 1 and not e.keywords:
+            return self._view(e.args[0])
+        if isinstance(e, ast.Subscript):
+            v = self._view(e.value)
+            items = list(e.slice.elts) if isinstance(e.slice, ast.Tuple) else [e.slice]
+            if len(items) > v.ndim:
+                raise Undec(f"too many indices in `{s_[:50]}`", e)
+            sel, order = list(v.sel), list(v.order)
+            drop = []
+            for k, it in enumerate(items):
+                ax = v.order[k]
+                kind, lo, hi = sel[ax]
+                if kind != "iv":
+                    raise Undec(f"`{s_[:50]}`", e)
+                if isinstance(it, ast.Slice):
+                    if it.step is not None:
+                        raise Undec(f"strided slice in `{s_[:50]}`", e)
+                    nlo, nhi = lo, hi
+                    if it.lower is not None:
+                        a = self.ival(it.lower, e)
+                        nlo = (hi + a) if nonneg(-a - 1) is True else lo + a
+                    if it.upper is not None:
+                        a = self.ival(it.upper, e)
+                        nhi = (hi + a) if nonneg(-a - 1) is True else lo + a
+                    if le(nhi, hi) is not True:
+                        if le(hi, nhi) is True:
+                            nhi = hi          # numpy clips a slice at the end of the axis
+                        else:
+                            raise Undec(f"cannot compare the slice end {nhi} with the extent {hi}", e)
+                    if le(nlo, nhi) is not True:
+                        if le(nhi, nlo) is True:
+                            nlo = nhi         # empty slice
+                        else:
+                            raise Undec(f"cannot compare the slice bounds {nlo} and {nhi}", e)
+                    sel[ax] = ("iv", nlo, nhi)
+                elif isinstance(it, ast.Name) and self.loop is not None and it.id == self.loop.name:
+                    sel[ax] = ("ix", self.loop, lo)
+                    drop.append(ax)
+                else:
+                    raise Undec(f"index `{src(it)}` in `{s_[:50]}` is neither a slice nor the loop index", e)
+            order = [a for a in order if a not in drop]
+            return View(v.buf, sel, order)
+        raise Undec(f"`{s_[:60]}` is not an array expression the analysis follows", e)
+
+    # ---- regions of a view: per dimension [lo, hi) or loop-indexed
+    def spans(self, v):
+        """dict buffer-axis -> (lo, hi) in buffer coordinates, loop-indexed axes expanded to the loop's range"""
+        out = {}
+        for ax, s_ in enumerate(v.sel):
+            if s_[0] == "iv":
+                out[ax] = (s_[1], s_[2])
+            else:
+                out[ax] = (s_[2] + s_[1].lo, s_[2] + s_[1].hi)
+        return out
+
+    def note_access(self, v, mode):
+        if self.loop is None:
+            return
+        ix = [ax for ax, s_ in enumerate(v.sel) if s_[0] == "ix"]
+        self.loop_acc.append((v.buf.name, tuple(ix), mode))
+
+    # ---- statements
+    def run(self):
+        # integers of the constructor (shape of the work array)
+        self.init_ints = {}
+        saved = self.ints
+        self.ints = self.init_ints
+        for st in _flat(self.init_body):
+            self.int_assign(st)
+        self.ints = saved
+        self.block(self.body)
+
+    def int_assign(self, st):
+        if isinstance(st, ast.Assign) and len(st.targets) == 1:
+            t, v = st.targets[0], st.value
+            pairs = [(t, v)]
+            if isinstance(t, ast.Tuple) and isinstance(v, ast.Tuple) and len(t.elts) == len(v.elts):
+                pairs = list(zip(t.elts, v.elts))
+            done = False
+            for a, b in pairs:
+                if isinstance(a, ast.Name):
+                    try:
+                        self.ints[a.id] = self.ival(b)
+                        done = True
+                    except Undec:
+                        self.ints.pop(a.id, None)
+            return done
+        return False
+
+    def mentions_arrays(self, st):
+        for x in ast.walk(st):
+            if isinstance(x, ast.Name) and (x.id in self.names or x.id == "ug"):
+                return True
+            if isinstance(x, ast.Attribute) and src(x) in ("spl.coeffs", "spl._coeffs", "self._bwork") or \
+                    (isinstance(x, ast.Attribute) and src(x).startswith("self._spline")) or (isinstance(x, ast.Attribute) and src(x) in self.bufs):
+                return True
+        return False
+
+    def block(self, stmts):
+        for st in stmts:
+            self.stmt(st)
+
+    def stmt(self, st):
+        if isinstance(st, (ast.Assert, ast.Pass)):
+            return
+        if isinstance(st, ast.Return):
+            if st.value is None or isinstance(st.value, ast.Constant):
+                raise _Stop()
+            raise Undec("returns a value", st)
+        if isinstance(st, ast.Expr) and isinstance(st.value, ast.Constant):
+            return
+        if isinstance(st, ast.Expr) and isinstance(st.value, ast.Call):
+            c = st.value
+            f = src(c.func)
+            for K in (1, 2):
+                if f == f"self._interp{K}.compute_interpolant":
+                    return self.solve(st, c, K)
+            if f == "np.copyto" and len(c.args) == 2:
+                return self.copy(st, c.args[0], c.args[1])
+            if self.mentions_arrays(st):
+                raise Undec(f"`{src(st)[:60]}` works on the arrays in a way the analysis does not model", st)
+            return
+        if isinstance(st, ast.Assign) and len(st.targets) == 1:
+            t = st.targets[0]
+            if isinstance(t, ast.Subscript):
+                return self.copy(st, t, st.value)
+            if isinstance(t, ast.Name):
+                if self.int_assign(st):
+                    self.names.pop(t.id, None)
+                    return
+                return self.bind(st, t.id, st.value)
+            if isinstance(t, ast.Tuple):
+                if self.int_assign(st):
+                    return
+                if self.mentions_arrays(st):
+                    raise Undec(f"`{src(st)[:60]}`", st)
+                return
+            if self.mentions_arrays(st):
+                raise Undec(f"`{src(st)[:60]}`", st)
+            return
+        if isinstance(st, ast.For):
+            return self.for_(st)
+        if isinstance(st, ast.If):
+            if not self.mentions_arrays(st):
+                return
+            raise Undec(f"branch on `{src(st.test)[:50]}` is not decided by the periodicity of the two bases", st)
+        if self.mentions_arrays(st):
+            raise Undec(f"`{src(st)[:60]}` is not modelled", st)
+
+    def bind(self, st, name, value):
+        # a new local array
+        if isinstance(value, ast.Call):
+            f = src(value.func)
+            if f in ("np.empty_like", "np.zeros_like", "np.ones_like") and value.args:
+                base = self.view(value.args[0], quiet=True)
+                if base is not None:
+                    dt = [k for k in value.keywords if k.arg == "dtype"]
+                    from_data = base.buf.name == "ug" and (not dt or "ug" in src(dt[0].value))
+                    exts = [base.sel[a][2] - base.sel[a][1] for a in base.order]
+                    dims = [base.buf.dims[a] for a in base.order]
+                    b = self.new_buf(f"{name}@{st.lineno}", dims, exts, "stale", from_data)
+                    b.alloc = src(value)
+                    self.names[name] = View(b, [("iv", sp.Integer(0), x) for x in exts], range(len(dims)))
+                    return
+            if f in ("np.empty", "np.zeros", "np.ones") and value.args:
+                try:
+                    exts = self.shape_expr(value.args[0], st)
+                    dims = self.dims_of_shape(exts, st)
+                except Undec:
+                    exts = None
+                if exts is not None and len(exts) == 2:
+                    dt = [k for k in value.keywords if k.arg == "dtype"]
+                    b = self.new_buf(f"{name}@{st.lineno}", dims, exts, "stale", bool(dt) and "ug" in src(dt[0].value))
+                    b.alloc = src(value)
+                    self.names[name] = View(b, [("iv", sp.Integer(0), x) for x in exts], range(len(dims)))
+                    return
+            if isinstance(value.func, ast.Attribute) and value.func.attr == "copy" and not value.args:
+                base = self.view(value.func.value, quiet=True)
+                if base is not None and base.ndim == 2 and not any(s_[0] == "ix" for s_ in base.sel):
+                    exts = [base.sel[a][2] - base.sel[a][1] for a in base.order]
+                    dims = [base.buf.dims[a] for a in base.order]
+                    b = self.new_buf(f"{name}@{st.lineno}", dims, exts, "stale", base.buf.from_data)
+                    self.names[name] = View(b, [("iv", sp.Integer(0), x) for x in exts], range(len(dims)))
+                    self.copy_views(st, self.names[name], base)
+                    return
+        is_copy = isinstance(value, ast.Call) and isinstance(value.func, ast.Attribute) and value.func.attr == "copy"
+        v = None if is_copy else self.view(value, quiet=True)
+        if v is not None:
+            self.names[name] = v
+            return
+        self.names.pop(name, None)
+        if self.mentions_arrays(st):
+            raise Undec(f"`{src(st)[:60]}` is not an array expression the analysis follows", st)
+
+    def for_(self, st):
+        if self.loop is not None:
+            raise Undec("nested loops", st)
+        if st.orelse:
+            raise Undec("for/else", st)
+        it = st.iter
+        idx_name, elem_name, over = None, None, None
+        if isinstance(it, ast.Call) and src(it.func) == "range" and len(it.args) == 1 and isinstance(st.target, ast.Name):
+            idx = Idx(st.target.id, sp.Integer(0), self.ival(it.args[0], st), st)
+        elif isinstance(it, ast.Call) and src(it.func) == "enumerate" and len(it.args) == 1 and isinstance(st.target, ast.Tuple) and \
+                len(st.target.elts) == 2 and all(isinstance(x, ast.Name) for x in st.target.elts):
+            over = self.view(it.args[0])
+            idx = Idx(st.target.elts[0].id, sp.Integer(0), None, st)
+            elem_name = st.target.elts[1].id
+        elif isinstance(st.target, ast.Name) and self.view(it, quiet=True) is not None:
+            over = self.view(it)
+            idx = Idx(f"<row of {src(it)[:20]}>", sp.Integer(0), None, st)
+            elem_name = st.target.id
+        else:
+            if self.mentions_arrays(st):
+                raise Undec(f"loop over `{src(it)[:50]}`", st)
+            return
+        if over is not None:
+            if over.ndim != 2:
+                raise Undec(f"loop over a {over.ndim}-d array", st)
+            ax = over.order[0]
+            lo, hi = over.sel[ax][1], over.sel[ax][2]
+            idx.hi = hi - lo
+            sel = list(over.sel)
+            sel[ax] = ("ix", idx, lo)
+            self.names[elem_name] = View(over.buf, sel, over.order[1:])
+        self.loop, self.loop_acc = idx, []
+        for K, s_ in self.scratch.items():
+            s_.valid = False
+        try:
+            self.block(st.body)
+        finally:
+            acc = self.loop_acc
+            self.loop, self.loop_acc = None, None
+            if elem_name:
+                self.names.pop(elem_name, None)
+        # iterations are independent: every array that the loop writes is accessed at the row/column of the iteration only
+        written = {n_ for n_, ix, m in acc if m == "w"}
+        for n_ in written:
+            axes = {ix for n2, ix, m in acc if n2 == n_}
+            if len(axes) != 1 or not next(iter(axes)):
+                raise Undec(f"the iterations of the loop over `{src(st.iter)[:40]}` are not independent on `{n_}`", st)
+        for s_ in self.scratch.values():
+            s_.valid = False
+
+    def solve(self, st, call, K):
+        b = agree.bind_call(call, ["ug", "spl"])
+        if b is None or set(b) != {"ug", "spl"}:
+            raise Undec(f"arguments of `{src(call)[:60]}`", st)
+        spl = src(b["spl"])
+        which = [k for k in (1, 2) if spl == f"self._spline{k}"]
+        if not which:
+            raise Undec(f"`{spl}` is not one of the interpolator's own 1-D splines", st)
+        v = self.view(b["ug"])
+        if v.ndim != 1:
+            raise Broken(f"`{src(b['ug'])[:40]}` is {v.ndim}-dimensional: the 1-D interpolator needs one row or column", st, "H4-sweep-roles")
+        ax = v.order[0]
+        d = v.buf.dims[ax]
+        other_ax = 1 - ax if len(v.buf.dims) == 2 else None
+        lo, hi = v.sel[ax][1], v.sel[ax][2]
+        name = {1: "x1", 2: "x2"}
+        if which[0] != K:
+            raise Broken(f"`{src(call)[:70]}`: the interpolator of dimension {K} writes into the work spline of dimension {which[0]} (another basis: "
+                         "the 1-D interpolator refuses it)", st, "H4-sweep-roles")
+        if d != K:
+            raise Broken(f"`{src(call)[:70]}`: `{src(b['ug'])[:30]}` runs along {name[d]} but is interpolated with the tools of dimension {K}: "
+                         f"the {name[d]} direction is solved with the collocation matrix of the other basis", st, "H4-sweep-roles")
+        if not _same(hi - lo, NS[d]):
+            raise Broken(f"`{src(b['ug'])[:40]}` has {hi - lo} entries along {name[d]}; the 1-D interpolator takes exactly nbasis = {NS[d]} data "
+                         "values (assertion fails)", st, "H4-sweep-roles")
+        if not _same(lo, 0):
+            raise Broken(f"`{src(b['ug'])[:40]}` starts at entry {lo}: the data of interpolation point j are taken from position j+{lo}", st, "H4-sweep-roles")
+        self.note_access(v, "r")
+        # typestate of the data, per segment of the other dimension
+        kinds = []
+        if other_ax is None:
+            raise Undec("1-D buffer", st)
+        osel = v.sel[other_ax]
+        olo, ohi = self.spans(v)[other_ax]
+        od = v.buf.dims[other_ax]
+        for a, bnd in self.segs(od, olo, ohi):
+            ks = set()
+            for a2, b2 in self.segs(d, lo, hi):
+                key = [None, None]
+                key[ax], key[other_ax] = a2, a
+                ks.add(self.cell_get(v.buf, key))
+            if len(ks) != 1:
+                raise Broken(f"`{src(b['ug'])[:40]}` mixes {sorted(KIND_TEXT.get(k, k) for k in ks)} along {name[d]}", st, "H4-sweep-roles")
+            k = next(iter(ks))
+            if k == "data":
+                nk = f"c{d}"
+            elif k == f"c{3 - d}":
+                nk = "c12"
+            elif k in (f"c{d}", "c12"):
+                raise Broken(f"`{src(call)[:60]}` interpolates along {name[d]} values that are already coefficients along {name[d]}", st, "H4-sweep-roles")
+            else:
+                raise Broken(f"`{src(call)[:60]}` interpolates {KIND_TEXT.get(k, k)} (rows {a}..{bnd} of `{v.buf.name}` along {name[od]})", st,
+                             "H4-sweep-roles")
+            kinds.append((a, bnd, nk))
+        s_ = self.scratch.setdefault(K, Scratch(K, self.E[K]))
+        s_.other_sel, s_.other_dim, s_.kinds, s_.valid, s_.loop = osel, od, kinds, True, self.loop
+        self.solves.append((st, K, f"{src(b['ug'])[:40]} along {name[d]} -> interp{K}/spline{K}"))
+
+    def copy(self, st, target, value):
+        tv = self.view(target)
+        sc = self.scratch_of(value, st)
+        if sc is not None:
+            return self.store_scratch(st, tv, sc)
+        if isinstance(value, ast.Constant):
+            self.note_access(tv, "w")
+            self.fill(tv, "zero")
+            return
+        if isinstance(value, ast.Call) and isinstance(value.func, ast.Attribute) and value.func.attr == "copy" and not value.args:
+            value = value.func.value
+        sv = self.view(value)
+        self.copy_views(st, tv, sv)
+
+    def fill(self, tv, kind):
+        sp_ = self.spans(tv)
+        axes = list(range(len(tv.buf.dims)))
+        segs = [self.segs(tv.buf.dims[ax], *sp_[ax]) for ax in axes]
+        for a in segs[0]:
+            for b in (segs[1] if len(segs) > 1 else [None]):
+                key = (a[0],) if b is None else (a[0], b[0])
+                self.cell_set(tv.buf, key, kind)
+
+    def store_scratch(self, st, tv, sc):
+        K, slo, shi = sc
+        s_ = self.scratch.get(K)
+        name = {1: "x1", 2: "x2"}
+        if s_ is None or not s_.valid or s_.loop is not self.loop:
+            raise Broken(f"`{src(st)[:70]}` stores the coefficients of work spline {K} that no solve of this iteration has produced", st)
+        if tv.ndim != 1:
+            raise Undec(f"`{src(st)[:60]}`: the target is not one row or column", st)
+        ax = tv.order[0]
+        d = tv.buf.dims[ax]
+        oax = 1 - ax
+        if d != K:
+            raise Broken(f"`{src(st)[:70]}` stores coefficients along {name[K]} into a row that runs along {name[d]}", st)
+        tlo, thi = tv.sel[ax][1], tv.sel[ax][2]
+        if not _same(thi - tlo, shi - slo):
+            raise Broken(f"`{src(st)[:70]}` stores {shi - slo} coefficients into {thi - tlo} places: raises a shape error", st)
+        # the row it is stored in must be the row it was solved for
+        osel, tsel = s_.other_sel, tv.sel[oax]
+        od = tv.buf.dims[oax]
+        if od != s_.other_dim:
+            raise Undec(f"`{src(st)[:60]}`", st)
+        if osel[0] == "ix" and tsel[0] == "ix" and osel[1] is tsel[1]:
+            shift = tsel[2] - osel[2]
+        elif osel[0] == "iv" and tsel[0] == "iv" and _same(osel[2] - osel[1], 1) and _same(tsel[2] - tsel[1], 1):
+            shift = tsel[1] - osel[1]
+        else:
+            raise Undec(f"`{src(st)[:60]}`: cannot relate the row stored to the row solved", st)
+        self.note_access(tv, "w")
+        off = tlo - slo
+        wrapped_ok = _same(off, 0)
+        for a, bnd, kind in s_.kinds:
+            for a2, b2 in self.segs(d, tlo, thi):
+                k = kind
+                if not _same(shift, 0):
+                    k = f"misplaced: the row solved for position i of {name[od]} is stored at position i+{shift}"
+                if not wrapped_ok:
+                    k = f"misplaced: coefficient j of the {name[d]} solve is stored at position j+{off}"
+                key = [None, None]
+                key[ax], key[oax] = a2, a + shift
+                self.add_cut(od, a + shift)
+                self.cell_set(tv.buf, key, k)
+        if tv.buf.from_data:
+            self.dtype_bad.append((st, tv.buf))
+
+    def copy_views(self, st, tv, sv):
+        name = {1: "x1", 2: "x2"}
+        if tv.ndim != sv.ndim:
+            if sv.ndim < tv.ndim:
+                raise Undec(f"`{src(st)[:60]}` broadcasts", st)
+            raise Broken(f"`{src(st)[:70]}` copies a {sv.ndim}-d part into a {tv.ndim}-d part: raises a shape error", st)
+        tdims = [tv.buf.dims[a] for a in tv.order]
+        sdims = [sv.buf.dims[a] for a in sv.order]
+        if tdims != sdims:
+            raise Broken(f"`{src(st)[:70]}` copies an array indexed ({', '.join(name[d] for d in sdims)}) onto one indexed "
+                         f"({', '.join(name[d] for d in tdims)}) without transposing: coefficients land at exchanged positions "
+                         "(or the copy raises a shape error)", st)
+        # loop-indexed axes must correspond
+        tix = {tv.buf.dims[ax]: s_ for ax, s_ in enumerate(tv.sel) if s_[0] == "ix"}
+        six = {sv.buf.dims[ax]: s_ for ax, s_ in enumerate(sv.sel) if s_[0] == "ix"}
+        if set(tix) != set(six):
+            raise Undec(f"`{src(st)[:60]}`: the loop index selects different dimensions on the two sides", st)
+        self.note_access(sv, "r")
+        self.note_access(tv, "w")
+        tsp, ssp = self.spans(tv), self.spans(sv)
+        t_by_dim = {tv.buf.dims[ax]: (ax, tsp[ax]) for ax in range(len(tv.buf.dims))}
+        s_by_dim = {sv.buf.dims[ax]: (ax, ssp[ax]) for ax in range(len(sv.buf.dims))}
+        offs = {}
+        for d in t_by_dim:
+            (tax, (tlo, thi)), (sax, (slo, shi)) = t_by_dim[d], s_by_dim[d]
+            if not _same(thi - tlo, shi - slo):
+                raise Broken(f"`{src(st)[:70]}` copies {shi - slo} entries along {name[d]} into {thi - tlo} places: raises a shape error "
+                             f"({'periodic' if self.per[d] else 'clamped'} {name[d]})", st)
+            offs[d] = sp.expand(tlo - slo)
+        lost = [d for d in offs if not _same(offs[d], 0) and not (self.per[d] and (_same(offs[d], NS[d]) or _same(offs[d], -NS[d])))]
+        if lost:
+            # whatever the source holds, it lands at positions where it does not belong
+            d = lost[0]
+            self.fill(tv, f"misplaced: `{src(st)[:60]}` stores at position j+{offs[d]} along {name[d]} what belongs to position j")
+            return
+        for d in t_by_dim:
+            (tax, (tlo, thi)), (sax, (slo, shi)) = t_by_dim[d], s_by_dim[d]
+            # matching cuts on both sides
+            self.add_cut(d, slo), self.add_cut(d, shi), self.add_cut(d, tlo), self.add_cut(d, thi)
+            for c in list(self.cuts[d]):
+                if le(slo, c) and le(c, shi):
+                    self.add_cut(d, c + offs[d])
+                if le(tlo, c) and le(c, thi):
+                    self.add_cut(d, c - offs[d])
+        dims = sorted(t_by_dim)
+        segs = {d: self.segs(d, *t_by_dim[d][1]) for d in dims}
+        new = {}
+        for a in segs[dims[0]]:
+            for b in segs[dims[1]] if len(dims) > 1 else [None]:
+                pos = {dims[0]: a[0]}
+                if b is not None:
+                    pos[dims[1]] = b[0]
+                tkey = [None] * len(tv.buf.dims)
+                skey = [None] * len(sv.buf.dims)
+                for d in dims:
+                    tkey[t_by_dim[d][0]] = pos[d]
+                    skey[s_by_dim[d][0]] = pos[d] - offs[d]
+                k = self.cell_get(sv.buf, skey)
+                for d in dims:
+                    k = self.moved(k, d, offs[d], st)
+                new[tuple(sp.expand(x) for x in tkey)] = k
+        for key, k in new.items():
+            self.cell_set(tv.buf, key, k)
+            if tv.buf.from_data and k in ("c1", "c2", "c12"):
+                self.dtype_bad.append((st, tv.buf))
+
+    def moved(self, kind, d, off, st):
+        if _same(off, 0) or kind in ("stale", "zero") or kind.startswith("misplaced"):
+            return kind
+        solved = kind in ("c12", f"c{d}")
+        if self.per[d] and solved and (_same(off, NS[d]) or _same(off, -NS[d])):
+            return kind
+        name = {1: "x1", 2: "x2"}
+        return (f"misplaced: holds the {KIND_TEXT.get(kind, kind)} of the position {off} entries before it along {name[d]} "
+                f"(`{src(st)[:50]}`)")
+
+    def final(self):
+        b = self.bufs.get("spl.coeffs")
+        if b is None:
+            raise Broken("the coefficient array of the spline is never written", None)
+        bad = []
+        c1, c2 = self.cuts[1], self.cuts[2]
+        for a, a_hi in zip(c1, c1[1:]):
+            if not (le(a_hi, self.E[1]) is True):
+                continue
+            for bb, b_hi in zip(c2, c2[1:]):
+                if not (le(b_hi, self.E[2]) is True):
+                    continue
+                k = self.cell_get(b, (a, bb))
+                if k != "c12":
+                    bad.append(((a, a_hi), (bb, b_hi), k))
+        return bad
+
+
+class _Stop(Exception):
+    pass
+
+
+def two_d(chk, imod):
+    smod = chk.mod(U.SPLINES)
+    q = f"{C2}.compute_interpolant"
+    fn = chk.func(U.INTERP, q)
+    init_q = f"{C2}.__init__"
+    init = chk.func(U.INTERP, init_q)
+    # ---- 1-D tools of dimension k are built on basis k
+    probs, found = [], 0
+    for st in ast.walk(init):
+        if isinstance(st, ast.Assign) and isinstance(st.value, ast.Call) and src(st.value.func) in ("Spline1D", "SplineInterpolator1D") and st.value.args:
+            t = src(st.targets[0])
+            for K in (1, 2):
+                if t in (f"self._spline{K}", f"self._interp{K}"):
+                    found += 1
+                    a = src(st.value.args[0])
+                    if a in (f"basis{3 - K}", f"self._basis{3 - K}"):
+                        probs.append(f"`{src(st)}` builds the tool of dimension {K} on the basis of dimension {3 - K}")
+                    elif a not in (f"basis{K}", f"self._basis{K}"):
+                        found -= 1
+        if isinstance(st, ast.Assign) and src(st.targets[0]) in ("self._basis1", "self._basis2") and isinstance(st.value, ast.Name):
+            K = int(src(st.targets[0])[-1])
+            if st.value.id == f"basis{3 - K}":
+                probs.append(f"`{src(st)}` stores the basis of dimension {3 - K} as basis {K}")
+    chk.pat("H4-sweep-roles", init, "1-D tools of dimension k are built on basis k", found == 4 and not probs,
+            "spline/interpolator k are built on basis k", ("; ".join(probs) + ": each direction is solved with the other direction's collocation "
+                                                           "matrix") if probs else None, file=U.INTERP, func=init_q)
+    # ---- the four combinations of periodicity
+    name = {1: "x1", 2: "x2"}
+    dtype_hits = []
+    for p1 in (True, False):
+        for p2 in (True, False):
+            per = {1: p1, 2: p2}
+            cfg = f"x1 {'periodic' if p1 else 'clamped'}, x2 {'periodic' if p2 else 'clamped'}"
+            facts = {}
+            for d in (1, 2):
+                for recv in (f"self._basis{d}", f"basis{d}", f"spl._basis{d}"):
+                    facts[f"{recv}.periodic"] = per[d]
+                    facts[f"{recv}._periodic"] = per[d]
+            body = Specialiser(imod, C2, facts=facts).run("compute_interpolant")
+            init_body = Specialiser(imod, C2, facts=facts).run("__init__")
+            R = Regions(chk, imod, smod, per, body, init_body)
+            construct = f"every entry of spl.coeffs holds its final coefficient ({cfg})"
+            try:
+                try:
+                    R.run()
+                except _Stop:
+                    pass
+                bad = R.final()
+            except Broken as e:
+                for st, K, text in R.solves:
+                    chk.ob("H4-sweep-roles", st, text, True, "data along a dimension are interpolated with the tools of that dimension",
+                           file=U.INTERP, func=q)
+                chk.ob(e.rule, e.node if e.node is not None else fn, construct if e.rule == "H3-periodic-wrap" else src(e.node)[:80], False,
+                       f"[{cfg}] {e.why}", file=U.INTERP, func=q)
+                dtype_hits += R.dtype_bad
+                continue
+            except Undec as e:
+                for st, K, text in R.solves:
+                    chk.ob("H4-sweep-roles", st, text, True, "data along a dimension are interpolated with the tools of that dimension",
+                           file=U.INTERP, func=q)
+                chk.ob("H3-periodic-wrap", e.node if isinstance(e.node, ast.AST) and hasattr(e.node, "lineno") else fn, construct, None,
+                       f"[{cfg}] the analysis cannot follow: {e.why}", file=U.INTERP, func=q)
+                dtype_hits += R.dtype_bad
+                continue
+            dtype_hits += R.dtype_bad
+            for st, K, text in R.solves:
+                chk.ob("H4-sweep-roles", st, text, True, "data along a dimension are interpolated with the tools of that dimension",
+                       file=U.INTERP, func=q)
+            if len({K for _s, K, _t in R.solves}) < 2 and not bad:
+                chk.ob("H4-sweep-roles", fn, "one sweep per dimension", None, "fewer than two sweeps recognised although the result is final",
+                       file=U.INTERP, func=q)
+            if bad:
+                (a, a_hi), (b, b_hi), k = bad[0]
+                what = k if k.startswith("misplaced") else KIND_TEXT.get(k, k)
+                chk.ob("H3-periodic-wrap", fn, construct, False,
+                       f"[{cfg}] at the end the entries [{a}, {a_hi}) x [{b}, {b_hi}) of spl.coeffs (n = nbasis, p = degree of each dimension) hold "
+                       f"{what}, not the coefficients of the two solves"
+                       + (f" ({len(bad)} such blocks)" if len(bad) > 1 else "") +
+                       ": the spline does not interpolate the data near the end of a periodic dimension", file=U.INTERP, func=q)
+            else:
+                chk.ob("H3-periodic-wrap", fn, construct, True,
+                       "every block of the coefficient array (first degree entries, middle, wrapped entries, in both dimensions) ends as the "
+                       "result of both 1-D solves at its own position", file=U.INTERP, func=q)
+    # ---- intermediate coefficients are kept in storage whose type does not depend on the caller's data
     likes = {}
     for n_ in ast.walk(fn):
         if isinstance(n_, ast.Assign) and isinstance(n_.targets[0], ast.Name) and isinstance(n_.value, ast.Call) \
@@ -135,69 +1404,34 @@ def two_d(chk):
             likes[n_.targets[0].id] = n_
     badw = [n_ for n_ in ast.walk(fn) if isinstance(n_, ast.Assign) and isinstance(n_.targets[0], ast.Subscript)
             and src(n_.targets[0].value) in likes and "coeffs" in src(n_.value)]
-    chk.ob("H5-work-dtype", badw[0] if badw else fn, "intermediate coefficients are not stored in an array typed like the data", not badw,
-           "the work arrays are the spline's own coefficient array and a float work array" if not badw else
-           f"`{src(badw[0])}` stores spline coefficients in `{src(likes[src(badw[0].targets[0].value)].value)}`, an array of the DATA's "
+    hit = None
+    if badw:
+        hit = (badw[0], src(likes[src(badw[0].targets[0].value)].value))
+    elif dtype_hits:
+        hit = (dtype_hits[0][0], getattr(dtype_hits[0][1], "alloc", dtype_hits[0][1].name))
+    chk.ob("H5-work-dtype", hit[0] if hit else fn, "intermediate coefficients are not stored in an array typed like the data", not hit,
+           "the work arrays are the spline's own coefficient array and a float work array" if not hit else
+           f"`{src(hit[0])[:80]}` stores spline coefficients in `{hit[1]}`, an array of the DATA's "
            "dtype: integer data truncates, single precision rounds the first-sweep coefficients, and the interpolant no longer reproduces "
-           "the data", file=U.INTERP, func="SplineInterpolator2D.compute_interpolant", nontrivial=False)
-    # the x2 wrap: all columns of the work array, guarded by basis2.periodic, with n2/p2; before the final transpose
-    wraps = [n for n in ast.walk(fn) if isinstance(n, ast.Assign) and isinstance(n.targets[0], ast.Subscript)
-             and isinstance(n.targets[0].slice, ast.Tuple) and isinstance(n.targets[0].slice.elts[0], ast.Slice)
-             and n.targets[0].slice.elts[0].lower is not None and src(n.targets[0].value) in ("wt", "w")]
-    seen = set()
-    for wnode in wraps:
-        arr = src(wnode.targets[0].value)
-        gs = [src(t) for t, pol, k in guards_of(wnode) if pol]
-        rows, cols = wnode.targets[0].slice.elts
-        vrows, vcols = (wnode.value.slice.elts if isinstance(wnode.value, ast.Subscript) and isinstance(wnode.value.slice, ast.Tuple) else (None, None))
-        if arr == "wt":
-            want_g, nn, pp = "self._basis2.periodic", "n2", "p2"
-        else:
-            want_g, nn, pp = "self._basis1.periodic", "n1", "p1"
-        full_cols = isinstance(cols, ast.Slice) and cols.lower is None and cols.upper is None and \
-            isinstance(vcols, ast.Slice) and vcols.lower is None and vcols.upper is None
-        okw = want_g in gs and same_expr(rows, f"slice({nn}, {nn} + {pp})") if False else \
-            (want_g in gs and src(rows).replace(" ", "") == f"{nn}:{nn}+{pp}" and vrows is not None and src(vrows).replace(" ", "") == f":{pp}"
-             and full_cols and src(wnode.value.value) == arr)
-        seen.add(arr)
-        chk.ob("H3-periodic-wrap", wnode, src(wnode), okw,
-               f"on a periodic dimension the first {pp} coefficient rows are repeated after the {nn}-th, over the whole extent of the other "
-               "dimension (including its own wrapped part)" if okw else
-               (f"the wrap of `{arr}` covers only `{src(cols)}` of the other dimension: the remaining coefficients of the wrapped rows keep "
-                "stale first-sweep values (periodic x clamped combinations interpolate wrongly)" if not full_cols else
-                f"wrap guard/extent: guards={gs}, rows={src(rows)}, from={src(vrows) if vrows is not None else '?'}"),
-               file=U.INTERP, func="SplineInterpolator2D.compute_interpolant")
-    if seen != {"wt", "w"}:
-        chk.ob("H3-periodic-wrap", fn, "two wraps (x2 on the work array, x1 on the result)", None if not seen else False,
-               f"wrap statements found for {sorted(seen)} only" if seen else "periodic wraps of the 2-D coefficients not recognised",
-               file=U.INTERP, func="SplineInterpolator2D.compute_interpolant")
-    # order: x2 wrap, transpose back, x1 wrap
-    body = fn.body
-    pos = {}
-    for k, st in enumerate(body):
-        s_ = src(st)
-        if "self._basis2.periodic" in s_:
-            pos["wrap2"] = k
-        if s_.replace(" ", "") == "w[:,:]=wt.transpose()":
-            pos["back"] = k
-        if "self._basis1.periodic" in s_:
-            pos["wrap1"] = k
-    oko = len(pos) == 3 and pos["wrap2"] < pos["back"] < pos["wrap1"]
-    chk.ob("H3-periodic-wrap", fn, "order: x2 wrap -> transpose back -> x1 wrap", oko if len(pos) == 3 else None,
-           "the x2 wrap is applied to the work array before it is transposed back, the x1 wrap to the final coefficients" if oko else
-           (f"order of wrap/transposition changed: {pos}" if len(pos) == 3 else f"wrap/transposition statements not all recognised: {pos}"),
-           file=U.INTERP, func="SplineInterpolator2D.compute_interpolant")
+           "the data", file=U.INTERP, func=q, nontrivial=False)
 
 
 def run(chk):
     chk.explanation = (
         "Narrow structural claim: collocation matrix built from one basis with columns [span-degree, span] (mod nb when periodic); "
-        "factorisation and solve selected as a pair by dtype equality and fed with each other's factors; periodic solves followed by "
-        "the coefficient wrap; in 2-D each sweep uses the tools of its own dimension and both wraps cover the full extent of the "
-        "other dimension in the right order. The defining identity S(x_i)=u_i, polynomial reproduction and conditioning are numerical "
-        "and are not decided.")
+        "factorisation and solve selected as a pair by dtype equality, by this interpolator's own dtype, and fed with each other's "
+        "factors; LAPACK band storage; periodic 1-D solves followed by the coefficient wrap; in 2-D, on each of the four combinations "
+        "of periodic/clamped dimensions, a typestate analysis of index regions (blocks cut at 0, degree, nbasis, nbasis+degree; states "
+        "stale/data/solved along x1/x2/both/misplaced; transfer functions for slices, transposition, row loops, copies, 1-D solves) shows "
+        "that every entry of the spline's coefficients ends as the result of both solves at its own position, and that each sweep "
+        "uses the tools of its own dimension. Methods are read with branches on periodicity resolved and private helpers written back. "
+        "The defining identity S(x_i)=u_i, polynomial reproduction and conditioning are numerical and are not decided.")
     chk.in_file(U.INTERP)
-    one_d(chk)
-    two_d(chk)
-    chk.floor("H", 14)
+    imod = chk.mod(U.INTERP)
+    collocation(chk, imod)
+    factor_solve_pair(chk, imod)
+    solves_1d(chk, imod)
+    two_d(chk, imod)
+    chk.floor("H", 12)
     chk.floor("H3-periodic-wrap", 2)
+    chk.floor("H4-sweep-roles", 2)
